@@ -990,7 +990,7 @@ pub static C07: HistProp = HistProp {
 pub static C08_META: PropMeta = PropMeta {
     id: "C08",
     level: "exploration",
-    rule: "cases: callback/idle programs of 1..5 handle operations (insert_source, register_dispatcher, insert_idle, remove, disable, update, enable of another source, ping/send on calloop handles, timer re-arm) aimed at the running source, another idle source, a source with an event in the same batch, a stale token or a fresh insert, nested to depth 3, for every source kind as runner and target; plus, in both tiers, the complete constructed table of single-operation programs: 7 runners (ping, channel, timer, generic, lifecycle probe, composite, idle callback) x {remove, disable, enable, update} x {self, idle source, source with an event in the same batch, stale token, source inserted one step earlier in the same program} (enable of the running source excluded as documented misuse), insertion of each of 6 source kinds, insert/cancel idle, ping/clone/drop handle, adapt_io, kind-specific re-arming, each x the runner's 4 post-actions. oracle: no panic anywhere (caught at the dispatch boundary, attributed by location), every in-callback operation has the model effect it has outside a dispatch (result class, register/unregister calls, later deliveries), self-directed disable/update deferred to the end of the running event processing. non-trivial: a program touching the running source itself or a source whose event is owed in the same dispatch, or nesting depth >= 2; distinct by case fingerprint",
+    rule: "cases: callback/idle programs of 1..5 handle operations (insert_source, register_dispatcher, insert_idle, remove, disable, update, enable of another source, ping/send on calloop handles, timer re-arm) aimed at the running source, another idle source, a source with an event in the same batch, a stale token or a fresh insert, nested to depth 3, for every source kind as runner and target (second profile hist_timers: up to 10 timers, several due in one batch or waiting in the wheel, re-armed from callbacks of the same dispatch); plus, in both tiers, the complete constructed table of single-operation programs: 7 runners (ping, channel, timer, generic, lifecycle probe, composite, idle callback) x {remove, disable, enable, update} x {self, idle source, source with an event in the same batch, stale token, source inserted one step earlier in the same program} (enable of the running source excluded as documented misuse), insertion of each of 6 source kinds, insert/cancel idle, ping/clone/drop handle, adapt_io, kind-specific re-arming, each x the runner's 4 post-actions. oracle: no panic anywhere (caught at the dispatch boundary, attributed by location), every in-callback operation has the model effect it has outside a dispatch (result class, register/unregister calls, later deliveries), self-directed disable/update deferred to the end of the running event processing. non-trivial: a program touching the running source itself or a source whose event is owed in the same dispatch, or nesting depth >= 2; distinct by case fingerprint",
     assumptions: ASSUME,
 };
 
@@ -1009,7 +1009,25 @@ fn c08_profiles() -> Vec<(&'static str, Profile, u32, u32)> {
     p.probe_lifecycle_pct = 50;
     p.post_pct = 20;
     p.max_ops = 35;
-    vec![("hist", p, 40000, 750000)]
+    // second profile: timer-heavy histories - several timers due in one batch (or an earlier one waiting in the
+    // wheel) while a callback of the same dispatch re-arms them through update() / disable()+enable() /
+    // set_deadline()+update(): the in-callback operation must have the effect it has outside a dispatch
+    let mut t = p.clone();
+    t.k_timer = 10;
+    t.k_ping = 4;
+    t.k_chan = 1;
+    t.k_gen = 1;
+    t.k_exec = 0;
+    t.o_exec = 0;
+    t.k_probe = 0;
+    t.k_comp = 1;
+    t.o_async = 0;
+    t.o_cause = 12;
+    t.o_token = 14;
+    t.o_insert = 5;
+    t.timer_future_pct = 20;
+    t.max_ops = 40;
+    vec![("hist", p, 40000, 750000), ("hist_timers", t, 15000, 250000)]
 }
 
 /// Index value that `ops::pick` maps onto entry `k` of a table of `len` entries.
